@@ -173,6 +173,15 @@ def load_prop(prop):
 def execute(mod, scn, keep_log=False):
     """Run one explicit scenario.  Returns (violation-dict-or-None, stats, digest, log)."""
     from . import seams
+    if '__history__' in scn:
+        # a replay that needs the runs executed before it in the same process (a violation that depends on what the
+        # process did earlier): the scenarios are executed in order, the verdict is the one of the last
+        res = None
+        digs = []
+        for sub in scn['__history__']:
+            res = execute(mod, sub, keep_log=keep_log)
+            digs.append(res[2])
+        return res[0], res[1], h64(*digs), res[3]
     log = EventLog(keep=keep_log)
     st = Stats()
     seams.reset_globals(scn.get('seed', 0))
@@ -208,6 +217,9 @@ def run_index(mod, verif_seed, tier, index):
     return scn
 
 
+_PROCESS_HISTORY = []       # indices executed so far by this (worker) process
+
+
 def _worker(args):
     prop, verif_seed, tier, indices, wall_cap = args
     faulthandler.enable()
@@ -229,7 +241,8 @@ def _worker(args):
             if st.nontrivial:
                 digests_nt.add(dig)
             if viol is not None and len(viols) < 4:
-                viols.append((idx, scn, viol))
+                viols.append((idx, scn, viol, list(_PROCESS_HISTORY)))
+            _PROCESS_HISTORY.append(idx)
             if len(samples) < 1:
                 samples.append(scn)
         return {'ok': True, 'nruns': nruns, 'stats': agg, 'digests_nt': digests_nt,
@@ -323,6 +336,50 @@ def replay_fresh(path, timeout=300):
     return p.returncode == 1 and 'REPRODUCED' in p.stdout, p.stdout + p.stderr
 
 
+def history_replay(mod, prop, verif_seed, tier, hist, scn, viol, max_trials=40):
+    """Find a short list of earlier runs of the same process after which `scn` violates in a fresh interpreter.
+    Returns (replay path, violation, trials) or (None, None, trials)."""
+    import tempfile
+    prefix = [run_index(mod, verif_seed, tier, i) for i in hist]
+    trials = [0]
+
+    def fails(pre):
+        trials[0] += 1
+        body = {'property': prop, 'scenario': {'__history__': pre + [scn]}, 'violation': viol, 'digest': ''}
+        fd, tmp = tempfile.mkstemp(prefix='dsim_hist_', suffix='.json')
+        with os.fdopen(fd, 'w') as f:
+            json.dump(body, f)
+        try:
+            ok, _ = replay_fresh(tmp, timeout=600)
+        finally:
+            os.unlink(tmp)
+        return ok
+    if not fails(prefix):
+        return None, None, trials[0]
+    # ddmin over the prefix
+    n = 2
+    while len(prefix) >= 1 and trials[0] < max_trials:
+        chunk = max(1, len(prefix) // n)
+        reduced = False
+        for i in range(0, len(prefix), chunk):
+            cand = prefix[:i] + prefix[i + chunk:]
+            if trials[0] >= max_trials:
+                break
+            if fails(cand):
+                prefix = cand
+                n = max(n - 1, 2)
+                reduced = True
+                break
+        if not reduced:
+            if chunk == 1:
+                break
+            n = min(len(prefix), n * 2)
+    hscn = {'__history__': prefix + [scn], 'seed': scn.get('seed', 0), 'index': scn.get('index')}
+    path = write_replay(prop, hscn, viol, '', tag='-history')
+    ok, _ = replay_fresh(path, timeout=600)
+    return (path, viol, trials[0]) if ok else (None, None, trials[0])
+
+
 # --------------------------------------------------------------------------- campaign
 
 def campaign(prop, tier, verif_seed, nruns=None, jobs=None, out=sys.stdout):
@@ -336,7 +393,36 @@ def campaign(prop, tier, verif_seed, nruns=None, jobs=None, out=sys.stdout):
 
     print('dsim property=%s tier=%s VERIF_SEED=%d runs=%d jobs=%d' % (prop, tier, verif_seed, nruns, jobs), file=out)
 
-    # 1. committed reproducers of open findings are replayed first
+    # 2. the seeded campaign
+    chunks = [[] for _ in range(jobs * 4)]
+    for i in range(nruns):
+        chunks[i % len(chunks)].append(i)
+    chunks = [c for c in chunks if c]
+    agg = Stats()
+    digests_nt = set()
+    all_digests = {}
+    viols = []
+    samples = []
+    done = 0
+    ctx = multiprocessing.get_context('fork')
+    with ProcessPoolExecutor(max_workers=jobs, mp_context=ctx) as ex:
+        futs = [ex.submit(_worker, (prop, verif_seed, tier, c, wall_cap)) for c in chunks]
+        for fu in as_completed(futs, timeout=wall_cap + 60):
+            r = fu.result()
+            if not r['ok']:
+                raise HarnessFault('worker failed:\n' + r['err'])
+            done += r['nruns']
+            agg.merge(r['stats'])
+            digests_nt |= r['digests_nt']
+            all_digests.update(r['all_digests'])
+            viols.extend(r['viols'])
+            if len(samples) < 3:
+                samples.extend(r['samples'][:1])
+    if done != nruns:
+        raise HarnessFault('ran %d of %d runs' % (done, nruns))
+
+    # 1. committed reproducers of open findings are replayed (after the workers were forked: the workers start from a
+    #    process that has executed nothing, so the history of a worker is exactly the runs it executed itself)
     kf_confirmed = []
     for e in kf.for_property(prop):
         rp = os.path.join(VERIF_DIR, e['replay'])
@@ -367,34 +453,6 @@ def campaign(prop, tier, verif_seed, nruns=None, jobs=None, out=sys.stdout):
         if viol is not None:
             reg_viols.append((rp, body['scenario'], viol, dig))
 
-    # 2. the seeded campaign
-    chunks = [[] for _ in range(jobs * 4)]
-    for i in range(nruns):
-        chunks[i % len(chunks)].append(i)
-    chunks = [c for c in chunks if c]
-    agg = Stats()
-    digests_nt = set()
-    all_digests = {}
-    viols = []
-    samples = []
-    done = 0
-    ctx = multiprocessing.get_context('fork')
-    with ProcessPoolExecutor(max_workers=jobs, mp_context=ctx) as ex:
-        futs = [ex.submit(_worker, (prop, verif_seed, tier, c, wall_cap)) for c in chunks]
-        for fu in as_completed(futs, timeout=wall_cap + 60):
-            r = fu.result()
-            if not r['ok']:
-                raise HarnessFault('worker failed:\n' + r['err'])
-            done += r['nruns']
-            agg.merge(r['stats'])
-            digests_nt |= r['digests_nt']
-            all_digests.update(r['all_digests'])
-            viols.extend(r['viols'])
-            if len(samples) < 3:
-                samples.extend(r['samples'][:1])
-    if done != nruns:
-        raise HarnessFault('ran %d of %d runs' % (done, nruns))
-
     if os.environ.get('DSIM_DIGESTS'):
         with open(os.environ['DSIM_DIGESTS'], 'w') as f:
             json.dump({str(k): v for k, v in sorted(all_digests.items())}, f)
@@ -415,7 +473,7 @@ def campaign(prop, tier, verif_seed, nruns=None, jobs=None, out=sys.stdout):
     seen_sigs = set()
     final_sigs = set()
     attempts = {}
-    for idx, scn, viol in viols:
+    for idx, scn, viol, hist in viols:
         if viol['sig'] in seen_sigs:
             continue
         # a violation that does not replay in a fresh process (it depended on what the worker had done before) is not
@@ -429,6 +487,13 @@ def campaign(prop, tier, verif_seed, nruns=None, jobs=None, out=sys.stdout):
         _, _, dig, _ = execute(mod, mscn)
         path = write_replay(prop, mscn, mviol, dig)
         ok, txt = replay_fresh(path)
+        if not ok and hist:
+            # the violation depends on what the worker process had executed before: replay the history of that process
+            # (explicit scenarios, in order) in a fresh interpreter and cut it down to the runs that are needed
+            hpath, hviol, ntr = history_replay(mod, prop, verif_seed, tier, hist, scn, viol)
+            if hpath is not None:
+                path, mviol, nex, ok = hpath, hviol, ntr, True
+                print('note: violation %s of run %d needs the runs executed before it in the same process; replay file holds that history' % (viol['sig'], idx), file=out)
         if not ok:
             unreplayable.append((mviol['sig'], idx, txt[-600:]))
             continue
